@@ -207,6 +207,10 @@ impl SubCheck for OnDemand {
     fn name(&self) -> &'static str {
         "on_demand_requests"
     }
+    fn max_shrink_iters(&self) -> u32 {
+        // a failing case may cost a 10 s wait per attempt ("requested state not evaluated")
+        12
+    }
     fn cases(&self, tier: Tier) -> u32 {
         tier.pick(2000, 30000)
     }
@@ -220,7 +224,7 @@ impl SubCheck for OnDemand {
         // forests (every state reachable by one path) are where eventually-verdicts are exact, so
         // that "finishes like BFS" can be demanded of them too
         p.shapes.push((4, Shape::Forest));
-        (graph_strategy(p), proptest::collection::vec((any::<u8>(), proptest::bool::weighted(0.2)), 0..7), proptest::bool::weighted(0.4))
+        (graph_strategy(p), proptest::collection::vec((any::<u8>(), proptest::bool::weighted(0.3)), 0..8), proptest::bool::weighted(0.4))
             .prop_map(|(mut g, requests, burst)| {
                 if burst {
                     g.slow_us = 300;
@@ -265,18 +269,34 @@ impl SubCheck for OnDemand {
             true
         };
         let mut effective = 0;
+        let mut requested_early: BTreeSet<u32> = BTreeSet::new();
         for (raw, junk) in &c.requests {
             if pending.is_empty() {
                 break;
             }
             if *junk {
-                // a fingerprint that denotes no pending state: nothing may be evaluated
-                checker.check_fingerprint(std::num::NonZeroU64::new(0xdead_0000_0000_0001 + *raw as u64).unwrap());
+                // a fingerprint that denotes no pending state: nothing may be evaluated. Either
+                // one that denotes no state at all, or (odd raw) a reachable state that has not been
+                // generated yet - a deep link ahead of the exploration; asking for the same state
+                // again later, when it is pending, must work
+                let ahead: Vec<u32> = r.set.iter().copied().filter(|s| !generated.contains(s)).collect();
+                if *raw % 2 == 1 && !ahead.is_empty() {
+                    let s = ahead[idx8(*raw, ahead.len())];
+                    checker.check_fingerprint(std::num::NonZeroU64::new(fp(s)).unwrap());
+                    requested_early.insert(s);
+                    cov.label("request_ahead_of_the_exploration");
+                } else {
+                    checker.check_fingerprint(std::num::NonZeroU64::new(0xdead_0000_0000_0001 + *raw as u64).unwrap());
+                }
                 cov.label("request_for_unknown_fingerprint");
                 continue;
             }
-            let k = idx8(*raw, pending.len());
+            // prefer a pending state that was asked for too early before
+            let k = pending.iter().position(|s| requested_early.contains(s)).unwrap_or_else(|| idx8(*raw, pending.len()));
             let s = pending.remove(k);
+            if requested_early.remove(&s) {
+                cov.label("state_requested_again_once_pending");
+            }
             checker.check_fingerprint(std::num::NonZeroU64::new(fp(s)).unwrap());
             expected_visits.push(s);
             effective += 1;
@@ -351,7 +371,7 @@ impl SubCheck for OnDemand {
         Ok(())
     }
     fn mandatory(&self) -> Vec<&'static str> {
-        vec!["two_targeted_requests", "request_for_unknown_fingerprint", "burst_of_requests", "forest_eventually_counterexample", "forest_counterexample_may_end_at_the_boundary"]
+        vec!["two_targeted_requests", "request_for_unknown_fingerprint", "burst_of_requests", "forest_eventually_counterexample", "forest_counterexample_may_end_at_the_boundary", "state_requested_again_once_pending"]
     }
 }
 
